@@ -50,10 +50,18 @@ func (s *badgerStore) Close() error {
 
 func (s *badgerStore) CheckAndSaveNonce(ID string, nonce int64) error {
 	// If nonceExpire is set, nonce should be within nonceExpire of now.
+	expire := s.nonceExpire
 	if s.nonceExpire > 0 {
-		if nonce <= time.Now().Add(-s.nonceExpire).UnixNano() {
+		now := time.Now()
+		if nonce <= now.Add(-s.nonceExpire).UnixNano() {
 			// Nonce is too old
 			return store.ErrInvalidNonce
+		}
+		// The saved nonce must be remembered for as long as it could still be
+		// replayed, which is until it falls out of the window: a nonce that
+		// is ahead of our clock stays valid for that much longer.
+		if ahead := time.Duration(nonce - now.UnixNano()); ahead > 0 {
+			expire += ahead
 		}
 	}
 	key := []byte(fmt.Sprintf("vip:nonce:%s", ID))
@@ -68,7 +76,7 @@ func (s *badgerStore) CheckAndSaveNonce(ID string, nonce int64) error {
 		}
 
 		if s.nonceExpire > 0 {
-			return setExpiringItem(txn, key, &nonce, s.nonceExpire)
+			return setExpiringItem(txn, key, &nonce, expire)
 		}
 		return setItem(txn, key, &nonce)
 	})
